@@ -281,8 +281,9 @@ impl Drop for GuardMem {
             m.dropped_tags.push(tag);
             if let Some(old) = old {
                 // storage must be released only after the remaining elements were destroyed
+                // (not judged while a panic unwinds: leaking the rest is then permitted)
                 if let Some((esz, probe)) = LIVE_PROBE.with(|p| p.get()) {
-                    if esz == es && es > 0 && !old.virt {
+                    if esz == es && es > 0 && !old.virt && !std::thread::panicking() {
                         let all = unsafe { std::slice::from_raw_parts(old.user, (es * cap).min(old.actual)) };
                         for ch in all.chunks_exact(es) {
                             if probe(ch) {
